@@ -37,7 +37,10 @@ const (
 	vc8SteerD22 = true
 	// D17 (gQ1): Min/Max count on ties across shards depends on arrival order.
 	vc8SteerD17 = true
-	// D14 (gF): TopN counts go stale after clear-imports / roaring imports / Store / ClearRow.
+	// D14 (gF): TopN counts go stale when a row's count drops (rank cache ignores counts below
+	// its threshold, incl. 0) or is changed by a roaring import: after Clear / clear-imports /
+	// roaring imports / Store / ClearRow, and after any write to a mutex field (which clears
+	// the column's other row). TopN(ids) is only probed on fields that never lost a bit.
 	vc8SteerD14 = true
 	// D15 (gF): a mutex/bool import batch that repeats a column keeps the wrong row.
 	vc8SteerD15 = true
@@ -514,6 +517,7 @@ func (c *vc8Case) step(i int) {
 		row := rapid.SampledFrom(f.rowPool).Draw(t, "row")
 		q := fmt.Sprintf("Clear(%s, %s=%s)", vc8colLit(idx, col), f.Name, vc8rowLit(f, row))
 		c.query(idx, q)
+		f.topnOK = f.topnOK && !vc8SteerD14
 		c.applyClearBit(f, row, col)
 		c.touch(idx, col)
 		c.logf("%s: %s", idx.Name, q)
@@ -1194,7 +1198,7 @@ func (c *vc8Case) fieldBattery(idx *vc8Index, f *vc8Field) []vc8Probe {
 			ps = append(ps, vc8Probe{desc: fmt.Sprintf("%s: columnAttrs of Row(%s=%s)", idx.Name, f.Name, row), got: "ca=" + strings.Join(gotA, "|"), want: "ca=" + strings.Join(wantA, "|")})
 		}
 		// TopN with explicit ids: exact counts
-		if (f.Typ == "set" || f.Typ == "mutex") && f.CacheType != "none" && f.topnOK && !f.Keys {
+		if (f.Typ == "set" || f.Typ == "mutex" && !vc8SteerD14) && f.CacheType != "none" && f.topnOK && !f.Keys {
 			ids := strings.Join(f.rowPool, ",")
 			resp := c.query(idx, fmt.Sprintf("TopN(%s, ids=[%s])", f.Name, ids))
 			pairs, ok := resp.Results[0].([]pilosa.Pair)
@@ -1214,7 +1218,7 @@ func (c *vc8Case) fieldBattery(idx *vc8Index, f *vc8Field) []vc8Probe {
 			sort.Strings(want)
 			ps = append(ps, vc8Probe{desc: fmt.Sprintf("%s: TopN(%s, ids=[%s])", idx.Name, f.Name, ids), got: "topn=" + strings.Join(got, ","), want: "topn=" + strings.Join(want, ",")})
 		} else if f.Typ == "set" || f.Typ == "mutex" {
-			if !f.topnOK {
+			if !f.topnOK || f.Typ == "mutex" {
 				vkit.Excluded("D14")
 			}
 		}
